@@ -213,3 +213,16 @@ class FindingShardFetchAssert(Lemma):
                 return True, "fetch of the never-stored chunk 1 (empty minishard 1): AssertionError"
             except IOError as e:
                 return False, f"I/O error {e!r}"
+
+
+# ---- native replay adapters (scenario sweeps on the real code, contracts/_native.py)
+
+from . import _native  # noqa: E402
+
+
+def _use(fn):
+    return lambda self, model, cfg, ob_name: fn()
+
+
+for _cls in (StoreChunkFaults, FetchChunkFaults, StoreFileFaults, FetchFileFaults, FileExistsFaults):
+    _cls.replay = _use(_native.faults_sweep)
